@@ -126,6 +126,8 @@ def run(prog, rep, tier='quick', config='default'):
         rep.violation('R20a', 'anchor-lost:no-iterator-user', detail='anchor lost: no product call site constructs the optimised page iterator')
     r20cd(prog, rep, adt['name'], it_name)
     r20f(prog, rep)
+    r20g(prog, rep)
+    r20h(prog, rep)
     rep.extra['page_cache_mutation_sites'] = n_mut
     rep.extra['iterator_construction_sites'] = n_sites
 
@@ -295,3 +297,126 @@ def r20f(prog, rep):
             rep.violation('R20f', k, where=markers[-1].where(), fn=f.name,
                           detail='a page can be passed over (the loop continues with the next page) before it is tested for the table marker: a table on '
                                  'that page is never found')
+
+
+def r20g(prog, rep):
+    """in the allocation-table reader, a line that looks like the total row but on which the pending security cannot be completed
+    is *always* handed on as a further line of that security (a holding of 100.0% next to 0.0% rows has such a line of its own):
+    from the failure edge of the completing call no error return is reachable ahead of the call that gathers the line"""
+    found = 0
+    for f in prog.product_fns():
+        if not f.name.startswith('peripheral::questrade_statement_fmv_impl::') or f.kind not in ('Fn', 'AssocFn'):
+            continue
+        loops = [(nc, h, b) for (nc, h, b) in f.iterator_loops() if 'Lines' in f.ty.get(nc.arg_local(0), '')]
+        if not loops:
+            continue
+        nc, header, body = loops[0]
+        local = [c for c in f.calls if c.bb in body and prog.resolve(c.callee, f.crate) is not None and
+                 prog.resolve(c.callee, f.crate).name.startswith('peripheral::questrade_statement_fmv_impl::')]
+        fins = [c for c in local if len(c.args) == 1 and re.search(r'Result<\(\), ', f.ty.get(c.dst['l'], ''))]
+        gathers = [c for c in local if len(c.args) == 2 and re.search(r'Result<\(\), ', f.ty.get(c.dst['l'], ''))]
+        if not fins or not gathers:
+            continue
+        for fin in fins:
+            # the failure edge of the completing call
+            err_targets = set()
+            for i, b in f.blocks.items():
+                t = b['term']
+                if not t or t['t'] != 'switch' or not f.dominates(fin.bb, i):
+                    continue
+                d = mir.provenance(f, t['discr'], follow_all_call_args=True)
+                if fin not in d.calls:
+                    continue
+                e = f.bool_switch_edges(i)
+                if any(x.short == 'is_err' for x in d.calls) and e:
+                    err_targets.add(e[0])
+                elif any(x.short == 'is_ok' for x in d.calls) and e:
+                    err_targets.add(e[1])
+                elif f._is_discr_of(t['discr'], fin.dst['l']):
+                    for v, tg in t['targets']:
+                        if v == 1:
+                            err_targets.add(tg)
+                    if not any(v == 1 for v, tg in t['targets']):
+                        err_targets.add(t['otherwise'])
+            if not err_targets:
+                continue
+            found += 1
+            gblocks = {g.bb for g in gathers if g.callee != fin.callee}
+            reach = set()
+            for et in err_targets:
+                if et in gblocks:
+                    continue
+                reach |= {et} | f.reachable_from(et, avoid=gblocks | {header})
+            errs = [i for i in reach if any(st['dst']['l'] == 0 and st['r']['rv'] == 'agg' and st['r']['kind'].endswith('Result::Err') for st in f.blocks[i]['stmts'])]
+            errs += [c.bb for c in f.calls if c.short == 'from_residual' and c.bb in reach]
+            k = '%s|unfinishable-total-like-line-joins-the-security' % f.name
+            if errs:
+                rep.violation('R20g', k, where=f.where(f.blocks[errs[0]]['term']) if f.blocks[errs[0]]['term'] else fin.where(), fn=f.name,
+                              detail='when %s fails on a line that looks like the total row, the reader can give up with an error before handing the line to '
+                                     '%s: a holding shown as 100.0%% beside 0.0%% rows (its numbers on a line of their own) makes the whole table unreadable'
+                                     % (short(fin.callee), short(gathers[0].callee)))
+            else:
+                rep.ok('R20g', k, where=fin.where(), fn=f.name,
+                       detail='on the failure edge of %s the line always reaches %s first' % (short(fin.callee), short(gathers[0].callee)))
+    if found == 0:
+        rep.violation('R20g', 'anchor-lost:table-reader', detail='anchor lost: the line loop of the allocation-table reader with its completing / gathering calls')
+
+
+def r20h(prog, rep):
+    """the pages that no hint names are collected from page ranges that start at 1, reach num_pages, and - if there are several -
+    follow each other without a gap: a range start that is carried round a loop is assigned the previous range's exclusive end
+    unchanged (`start = end`, not `end + 1`)"""
+    cands = [f for f in prog.product_fns() if f.name.startswith('peripheral::pdf::') and f.kind in ('Fn', 'AssocFn') and
+             re.search(r'^std::vec::Vec<std::vec::Vec<u32', f.ty.get(0, '')) and any(f.ty.get(p) == 'u32' for p in range(1, f.argc + 1))]
+    if not rep.anchor('page-group sanitiser (num_pages: u32, hints) -> Vec<Vec<u32>>', [f.name for f in cands]):
+        return
+    for f in cands:
+        npar = [p for p in range(1, f.argc + 1) if f.ty.get(p) == 'u32'][0]
+        ranges = []
+        for i, b in f.blocks.items():
+            for st in b['stmts']:
+                r = st['r']
+                if r['rv'] == 'agg' and re.search(r'^adt:std::ops::Range(Inclusive)?\b', r['kind']) and 'u32' in f.ty.get(st['dst']['l'], ''):
+                    ranges.append((i, st))
+        k = '%s|remainder-ranges-cover-every-page' % f.name
+        if not ranges:
+            rep.violation('R20h', 'anchor-lost:remainder-range', fn=f.name, detail='anchor lost: no page range in the sanitiser')
+            continue
+        bad = None
+        reaches_n = False
+        for (i, st) in ranges:
+            r = st['r']
+            inclusive = 'RangeInclusive' in r['kind']
+            start, end = r['ops'][0], r['ops'][1]
+            eo = mir.provenance(f, end, follow_all_call_args=True) if is_place(end) else None
+            if eo is not None and npar in eo.params:
+                reaches_n = True
+            if start['k'] == 'const':
+                if not re.match(r'^1_u32$', str(start.get('v'))):
+                    bad = bad or (f.where(st), 'a remainder range starts at %s, not at page 1' % start.get('v'))
+                continue
+            sl = mir.nearest_user_local(f, start)
+            el = mir.nearest_user_local(f, end) if is_place(end) else None
+            lp = f.loop_of(i)
+            if sl is None or lp is None:
+                so = mir.provenance(f, start)
+                if not (so.consts and not so.params and not so.binops):
+                    bad = bad or (f.where(st), 'the start of a remainder range is computed, not the constant 1')
+                continue
+            body = lp[1]
+            for (bb, idx, kind, node) in f.defs.get(sl, []):
+                if bb not in body or kind != 'stmt':
+                    continue
+                vo = mir.provenance(f, node['r']['ops'][0]) if node['r'].get('ops') and is_place(node['r']['ops'][0]) else None
+                plain_copy = node['r']['rv'] == 'use' and vo is not None and not vo.binops and el is not None and el in vo.locals
+                plus_one = vo is not None and any(op.startswith('Add') for op, _ in vo.binops) and el is not None and el in vo.locals
+                if inclusive and not plus_one:
+                    bad = bad or (f.where(node), 'after an inclusive range the next one must start at end + 1')
+                elif not inclusive and not plain_copy:
+                    bad = bad or (f.where(node), 'the next range does not start exactly where the previous (exclusive) one ended: pages between them are in no group')
+        if not reaches_n:
+            bad = bad or ('%s:%d' % (f.file, f.line), 'no remainder range ends at num_pages')
+        if bad:
+            rep.violation('R20h', k, where=bad[0], fn=f.name, detail='%s, so a page that no hint names is never visited' % bad[1])
+        else:
+            rep.ok('R20h', k, fn=f.name, where=f.where(ranges[0][1]), detail='%d page range(s): from 1 up to num_pages, contiguous' % len(ranges))
